@@ -19,13 +19,13 @@ Definition CR : N := 13.
 (* str::lines *)
 Definition strip_cr_rev (cur : str) : str :=
   match cur with
-  | c :: cur' => if c =? 13 then rev cur' else rev cur
+  | c :: cur' => if c =? 13 then frev cur' else frev cur
   | [] => []
   end.
 
 Fixpoint lines_aux (cur s : str) : list str :=
   match s with
-  | [] => match cur with [] => [] | _ => [rev cur] end
+  | [] => match cur with [] => [] | _ => [frev cur] end
   | c :: r => if c =? 10 then strip_cr_rev cur :: lines_aux [] r
               else lines_aux (c :: cur) r
   end.
@@ -34,11 +34,11 @@ Definition lines (s : str) : list str := lines_aux [] s.
 (* str::split_whitespace / split_ascii_whitespace, generic in the blank predicate *)
 Fixpoint split_aux (p : N -> bool) (cur s : str) : list str :=
   match s with
-  | [] => match cur with [] => [] | _ => [rev cur] end
+  | [] => match cur with [] => [] | _ => [frev cur] end
   | c :: s' => if p c
                then match cur with
                     | [] => split_aux p [] s'
-                    | _ => rev cur :: split_aux p [] s'
+                    | _ => frev cur :: split_aux p [] s'
                     end
                else split_aux p (c :: cur) s'
   end.
@@ -51,7 +51,7 @@ Fixpoint drop_while (p : N -> bool) (s : str) : str :=
   | c :: r => if p c then drop_while p r else s
   end.
 Definition trim_start (s : str) : str := drop_while is_ws s.
-Definition trim_end (s : str) : str := rev (drop_while is_ws (rev s)).
+Definition trim_end (s : str) : str := frev (drop_while is_ws (frev s)).
 Definition trim (s : str) : str := trim_end (trim_start s).
 
 Fixpoint join (sep : str) (l : list str) : str :=
@@ -67,7 +67,7 @@ Fixpoint starts_with (p s : str) : bool :=
   | _ :: _, [] => false
   end.
 
-Definition ends_with (p s : str) : bool := starts_with (rev p) (rev s).
+Definition ends_with (p s : str) : bool := starts_with (frev p) (frev s).
 
 (* decimal rendering of a number (Display for integers) *)
 Fixpoint dec_aux (fuel : nat) (n : N) (acc : str) : str :=
